@@ -6,13 +6,14 @@
 set -u
 dir=$1; dest=$2; cmd=$3
 name=$(echo "$dir" | tr '/' '_')
-wt=/tmp/lrv-seedcheck/$name
-mkdir -p /tmp/lrv-seedcheck
+SC=${SEEDCHECK_BASE:-/tmp/lrv-seedcheck}
+wt=$SC/$name
+mkdir -p $SC
 git -C /repo worktree remove --force $wt >/dev/null 2>&1; rm -rf $wt
 git -C /repo worktree add --detach $wt HEAD >/dev/null 2>&1 || { echo "SEED $dir: worktree failed"; exit 2; }
-export CARGO_NET_OFFLINE=true CARGO_TARGET_DIR=/tmp/lrv-seedcheck/target
+export CARGO_NET_OFFLINE=true CARGO_TARGET_DIR=$SC/target
 res="SEED $dir:"
-if git -C $wt apply $dir/patch.diff 2>/tmp/lrv-seedcheck/apply.err; then res="$res applies"; else echo "$res PATCH DOES NOT APPLY: $(head -3 /tmp/lrv-seedcheck/apply.err)"; git -C /repo worktree remove --force $wt; exit 1; fi
+if git -C $wt apply $dir/patch.diff 2>$SC/apply.err; then res="$res applies"; else echo "$res PATCH DOES NOT APPLY: $(head -3 $SC/apply.err)"; git -C /repo worktree remove --force $wt; exit 1; fi
 suite=$(cd $wt && cargo test --workspace --offline 2>&1 | grep -E "^test result" | awk '{p+=$4; f+=$6} END {print p" passed "f" failed"}')
 res="$res; suite with patch: $suite"
 mkdir -p $(dirname $wt/$dest); cp $dir/demo.rs $wt/$dest
